@@ -289,6 +289,52 @@ class Tr:
         return dict(name=name, passes=[(d, dn, dl) for d, dn in passes], body=body, final=final)
 
 
+def sweep12(T, name, helpers):
+    """the mixed 1-site / 2-site sweep: the control skeleton (flag update_two, decisions of env.enlarge_bond) is checked literally, the four
+    blocks of operations are translated"""
+    T.helpers = set(helpers)
+    fn = find_function(T.tree, name, T.path)
+    loops = [s for s in fn.body if isinstance(s, ast.For)]
+    if len(loops) != 1:
+        fail(T.path, fn, 'expected exactly one top-level loop over directions')
+    F = loops[0]
+    i = fn.body.index(F)
+    if not (isinstance(F.target, ast.Tuple) and [t.id for t in F.target.elts] == ['to', 'dn']):
+        fail(T.path, F, 'unsupported loop over directions')
+    passes = [(T.dirn(e.elts[0]), T.zexpr(e.elts[1], {})) for e in F.iter.elts]
+    if len(F.body) != 2 or ast.unparse(F.body[0]) != 'update_two = False' or not isinstance(F.body[1], ast.For):
+        fail(T.path, F, '12site: expected "update_two = False" followed by the loop over sites')
+    G = F.body[1]
+    if ast.unparse(G.iter) != 'psi.sweep(to=to)' or ast.unparse(G.target) != 'n' or len(G.body) != 1 or not isinstance(G.body[0], ast.If):
+        fail(T.path, G, '12site: unsupported loop over sites')
+    top = G.body[0]
+    ENL = 'env.enlarge_bond((n - 1 + dn, n + dn), opts_svd)'
+    if ast.unparse(top.test) != 'not update_two':
+        fail(T.path, top, '12site: expected the test "not update_two"')
+    a = top.body
+    if len(a) != 1 or not isinstance(a[0], ast.If) or ast.unparse(a[0].test) != ENL or ast.unparse(a[0].body[0]) != 'update_two = True' or len(a[0].body) != 1:
+        fail(T.path, top, '12site: unexpected 1-site branch')
+    env = {'n': 'n', 'dn': 'dn'}
+    one = T.stmts(a[0].orelse, env)[0]
+    b = top.orelse
+    if not b or not isinstance(b[-1], ast.If) or ast.unparse(b[-1].test) != ENL:
+        fail(T.path, top, '12site: unexpected 2-site branch')
+    two = T.stmts(b[:-1], env)[0]
+    two_A = T.stmts(b[-1].body, env)[0]
+    cblock = b[-1].orelse
+    if not cblock or ast.unparse(cblock[-1]) != 'update_two = False':
+        fail(T.path, top, '12site: the centre branch must reset update_two')
+    two_C = T.stmts(cblock[:-1], env)[0]
+    final = T.stmts(fn.body[i + 1:], {})[0]
+    for s_ in fn.body[:i]:
+        src = ast.unparse(s_)
+        if isinstance(s_, ast.Expr) and isinstance(s_.value, ast.Constant):
+            continue
+        if not src.startswith('env, opts = _init_tdvp(psi, H, env, opts_expmv, precompute)'):
+            fail(T.path, s_, 'unexpected statement before the sweep')
+    return dict(passes=passes, one=one, two=two, two_A=two_A, two_C=two_C, final=final)
+
+
 def translate(repo):
     out = []
     p1 = os.path.join(repo, 'yastn/tn/mps/_dmrg.py')
@@ -307,6 +353,12 @@ def translate(repo):
     H = ('_update_A', '_update_C', '_update_AA')
     out.append(('tdvp_1site', t2.sweep('_tdvp_sweep_1site_', H)))
     out.append(('tdvp_2site', t2.sweep('_tdvp_sweep_2site_', H)))
+    out.append(('tdvp_12site', sweep12(t2, '_tdvp_sweep_12site_', H)))
+    # enlarge_bond decides from the site tensors only and never enlarges across the ends of the chain
+    p3 = os.path.join(repo, 'yastn/tn/mps/_env.py')
+    eb = ast.unparse(find_function(ast.parse(open(p3).read()), 'enlarge_bond', p3))
+    if 'if bd[0] < 0 or bd[1] >= self.N:\n        return False' not in eb or 'self.F' in eb or 'Heff' in eb or 'update_env' in eb:
+        raise TranslateError('%s: enlarge_bond no longer refuses bonds outside the chain first, or it touches the environment' % p3)
     init = ast.unparse(find_function(t2.tree, '_init_tdvp', p2))
     if "env = Env(psi, [H, psi], precompute=precompute).setup_(to='first')" not in init:
         raise TranslateError('%s: _init_tdvp no longer sets the environment up towards the first site' % p2)
@@ -317,6 +369,13 @@ def emit(progs):
     o = ["(* SweepGen.v -- GENERATED by tools/translate/tr_sweep.py from yastn/tn/mps/_dmrg.py and _tdvp.py; do not edit. *)",
          "From Coq Require Import List ZArith Bool.", "From Yv Require Import Sweep.Sweep.", "Import ListNotations.", "Open Scope Z_scope.", ""]
     for nm, p in progs:
+        if 'one' in p:
+            o.append("Definition %s_passes : list (dirn * Z) := [%s]." % (nm, '; '.join('(%s, %s)' % x for x in p['passes'])))
+            for k in ('one', 'two', 'two_A', 'two_C'):
+                o.append("Definition %s_%s (N n dn : Z) (to : dirn) : list op := [%s]." % (nm, k, '; '.join(p[k])))
+            o.append("Definition %s_final (N : Z) : list op := [%s]." % (nm, '; '.join(p['final'])))
+            o.append("")
+            continue
         o.append("Definition %s_passes : list (dirn * Z * Z) := [%s]." % (nm, '; '.join('(%s, %s, %s)' % x for x in p['passes'])))
         o.append("Definition %s_body (N n dn : Z) (to : dirn) : list op := [%s]." % (nm, '; '.join(p['body'])))
         o.append("Definition %s_final (N : Z) : list op := [%s]." % (nm, '; '.join(p['final'])))
@@ -334,7 +393,7 @@ def write_if_changed(path, text):
 def main(repo='/repo', out='/verif/coq/theories/Gen/SweepGen.v'):
     progs = translate(repo)
     write_if_changed(out, emit(progs))
-    return dict(programs={nm: dict(passes=p['passes'], body=p['body'], final=p['final']) for nm, p in progs})
+    return dict(programs={nm: p for nm, p in progs})
 
 
 if __name__ == '__main__':
